@@ -1,5 +1,7 @@
 import Zog.Path
 import Zog.Engine
+import Zog.IssuePaths
+import Zog.Props.FactsOK
 
 /-!
 # C10 — the issue map is well-formed and addresses every issue by its path
@@ -198,5 +200,27 @@ theorem sanitize_list_length (l : List Issue) : (sanitizeList l).length = l.leng
 
 theorem sanitize_get (l : List Issue) (n : Nat) (h : n < l.length) :
     (sanitizeList l)[n]'(by simpa [sanitizeList] using h) = (l[n]).message := by simp [sanitizeList]
+
+/-- **At every nesting depth, every issue is addressed by a chain from the root.** For every schema
+    whose callbacks return ordinary errors (a ZogIssue returned by a PostTransform keeps the path its
+    author gave it), every input, mode and visit order: the `Path` of every issue of the result is
+    the rendering of a chain of keys and slice positions — the node that filed it, reached from the
+    root — or the `IssuePath` declared on one of the schema's tests. (Each node files under
+    `path ++ [its key]`: `Spec.proc_at`, by induction over the schema tree; the key itself is
+    `key_source_tag_first` … `key_validate`, the rendering `render_is_joinSpec`.) -/
+theorem issues_addressed_at_every_depth (env : Env) (m : Mode) (s : Schema) (hpl : Spec.PlainCallbacks s)
+    (tag : Option String) (v : Val) (d : DVal) :
+    ∀ i ∈ (Engine.run env Gen.facts m s tag v d).2.sink,
+      (∃ chain : List String, i.path = render chain) ∨ i.path ∈ Spec.overrides s := by
+  rw [engine_is_spec]
+  exact Spec.run_issue_paths env m s hpl tag v d
+
+/-- the same, locally: a node run at path `p` only files issues at or below `p` (or at declared
+    IssuePaths) — whatever state it starts from -/
+theorem node_files_below_itself (env : Env) (m : Mode) (s : Schema) (hpl : Spec.PlainCallbacks s)
+    (tag : Option String) (path : List String) (v : Val) (d : DVal) (st : St) :
+    ∃ extra, (Spec.proc env m s tag path v d st).2.sink = st.sink ++ extra ∧
+      ∀ i ∈ extra, (∃ suffix : List String, i.path = render (path ++ suffix)) ∨ i.path ∈ Spec.overrides s :=
+  Spec.proc_at env m (Spec.overrides s) s hpl (fun _ h => h) tag path v d st
 
 end Zog.Props.C10
